@@ -41,6 +41,11 @@ def modify(ctx, path, md5, no_reverify, size):
     # Check MD5
     validate_md5(md5)
 
+    # The daemon compares hashes as strings against hashlib's lower-case
+    # hexdigest, so store the canonical spelling
+    if md5 is not None:
+        md5 = md5.lower()
+
     with database_proxy.atomic():
         file_ = file_from_path(path)
 
